@@ -319,9 +319,27 @@ def main(tier, replay, t0):
     stats = {"processes": 0, "threads": 0, "orders": 0, "outputs": 0, "foreign_thread_calls": 0,
              "declined": 0}
 
-    def record(tag, res):
+    def record(tag, res, single_thread=True):
         for r in res:
             key = r["id"]
+            st = r.get("state")
+            if st and single_thread:
+                stats["state_checks"] = stats.get("state_checks", 0) + 1
+                left = []
+                if st["fds_after"] != st["fds_before"]:
+                    left.append("open descriptors %d -> %d" % (st["fds_before"], st["fds_after"]))
+                if st["children_after"] != st["children_before"]:
+                    left.append("child processes not reaped: %r" % st["children_after"])
+                for k_ in ("cwd", "env", "sigpipe", "umask"):
+                    if st.get(k_ + "_changed"):
+                        left.append(k_ + " changed")
+                if left:
+                    what = left[0].split()[0]
+                    viol.append(Violation("call-leaves-state", "%s:%s" % (
+                        what, tag.rstrip("0123456789")),
+                        "after the call returned the process differs from before it: %s" %
+                        "; ".join(left), {"key": key, "state": st, "run": tag,
+                                          "source": shaders.get(key.split("#")[0], "")[:3000]}))
             if r["result"] == "ok":
                 h = r["text_sha"]
             elif r["result"] == "err":
@@ -358,6 +376,7 @@ def main(tier, replay, t0):
     ]
     nproc = 4 if tier == "quick" else 16
     # process 0: natural order, every job twice in a row
+    jobs = [dict(j, state=True) for j in jobs]
     j0 = [dict(j, repeat=2) for j in jobs]
     p, res = core.run_drive(binp, j0, "c18/p0", cwd=cwd_b)
     if p.returncode != 0 or len(res) != len(jobs):
@@ -379,7 +398,7 @@ def main(tier, replay, t0):
                                 shuffle=core.seed() * 77 + k, cwd=cwd_a)
         if p.returncode != 0 or len(res) != 2 * len(jobs):
             raise core.Inconclusive("threaded run failed: %s" % p.stderr[-1500:])
-        record("t%d" % k, res)
+        record("t%d" % k, res, single_thread=False)
         stats["processes"] += 1
         stats["orders"] += 1
         stats["threads"] = max(stats["threads"], len({r["tid"] for r in res}))
@@ -391,7 +410,7 @@ def main(tier, replay, t0):
         p, res = core.run_drive(binp, stress, "c18/s%d" % k, threads=16, shuffle=k, cwd=cwd_b)
         if p.returncode != 0 or len(res) != len(stress):
             raise core.Inconclusive("stress run failed: %s" % p.stderr[-1500:])
-        record("stress%d" % k, res)
+        record("stress%d" % k, res, single_thread=False)
         stats["processes"] += 1
     stats["stress_calls"] = len(stress) * (2 if tier == "quick" else 5)
     # formatter on: same directory discipline (no rustfmt.toml), subset of jobs
@@ -429,7 +448,7 @@ def main(tier, replay, t0):
                                 timeout=900, extra_env={"PATH": real_dir + ":/usr/bin:/bin"})
         if p.returncode != 0 or len(res) != 6 * len(bigfmt):
             raise core.Inconclusive("threaded big formatter run failed: %s" % p.stderr[-1500:])
-        record("bigthr", res)
+        record("bigthr", res, single_thread=False)
         stats["processes"] += 2
         # the formatter's speed is not an input: a correct but slow formatter must give the
         # same bytes as the fast one
@@ -439,8 +458,31 @@ def main(tier, replay, t0):
                                            "VERIF_REAL_RUSTFMT": real})
         if p.returncode != 0 or len(res) != len(slow):
             raise core.Inconclusive("slow formatter run failed: %s" % p.stderr[-1500:])
-        record("slowfmt", res)
+        record("slowfmt", res, single_thread=False)
         stats["processes"] += 1
+    if real:
+        # history: a call during which the formatter cannot be started (or fails) must not
+        # change what later calls return once it works again; nor may it leave children behind
+        good = real_dir + ":/usr/bin:/bin"
+        seqj = []
+        faults = ["/nonexistent-path", os.path.join(core.VERIF, "stubs", "exit1_immediately"),
+                  os.path.join(core.VERIF, "stubs", "kill_before_read"),
+                  os.path.join(core.VERIF, "stubs", "garbage_exit3"),
+                  os.path.join(core.VERIF, "stubs", "exit0_without_reading")]
+        pool = fj[:10] + bigfmt[:1]
+        for k, j in enumerate(pool):
+            seqj.append(dict(j, set_env={"PATH": good}))
+            other = pool[(k + 3) % len(pool)]
+            seqj.append(dict(other, id=other["id"] + "#faulty%d" % (k % len(faults)),
+                             set_env={"PATH": faults[k % len(faults)]}))
+            seqj.append(dict(j, set_env={"PATH": good}))
+        p, res = core.run_drive(binp, seqj, "c18/history", cwd=cwd_b, timeout=900,
+                                extra_env={"PATH": good, "VERIF_REAL_RUSTFMT": real})
+        if p.returncode != 0 or len(res) != len(seqj):
+            raise core.Inconclusive("history run failed: %s" % p.stderr[-1500:])
+        record("history", res)
+        stats["processes"] += 1
+        stats["history_calls"] = len(seqj)
     nontrivial = 0
     samples = []
     for key, hs in sorted(obs.items()):
